@@ -27,7 +27,6 @@ run "applied-patches that can not be read or understood" C17
 run "--fuzz value that is not a number" C20
 run "reject file left over from an earlier run" C15
 run "mode of a written file is set after its content" C08
-run "leads out of the working directory through a symbolic link" C19
 run "reached through a symbolic link may become empty" C05
 run "fuzz hint of the failure diagnostics makes one attempt" C11
 run "applied-patches is read as what it is" C09
@@ -39,6 +38,9 @@ run "does not take a directory of size 0 for an empty file" C17
 run "ends in a slash or in" C05 C10
 run "working directory itself is not removed" C19
 run "does not follow a symbolic link below .pc" C19
+# the check of backups uses the function that the check of targets introduced: undone together
+c3=$(h "does not follow a symbolic link below .pc"); c4=$(h "leads out of the working directory through a symbolic link")
+tools/revert_eval.sh $c3,$c4 C19 2>&1 | grep -v conda | cut -c1-220 >> $out
 # two repairs that touch the same lines: undone together (newest first)
 c1=$(h "writes backups, cleans directories and writes rejects in the order"); c2=$(h "files that only rolled-back patches had loaded are not written")
 tools/revert_eval.sh $c1,$c2 C05 C06 2>&1 | grep -v conda | cut -c1-220 >> $out
